@@ -17,3 +17,29 @@ package api
 //@   requires net != nil
 //@   ensures[C16] result1 == nil ==> result0 != nil && (expectStaking ==> addrKind(result0) == 2) && (!expectStaking ==> addrKind(result0) == 1)
 //@   ensures result1 != nil ==> result0 == nil
+
+// ---- C15: amount strings.  The numeral is <integral digits>[.<fraction digits>] (either part may be empty: the
+// repository's own tests require "123." and ".5"); ipart/fpart are the parts around the point, sig the fraction
+// without its trailing zeros.  Value in maxwell = ipart * 10^8 + sig * 10^(8 - len(sig)).
+//@ define ipart(s) = ghosts("splitpart", s, ".", 0)
+//@ define fpart(s) = ghosts("splitpart", s, ".", 1)
+//@ define nparts(s) = ghost("nsplit", s, ".")
+//@ define sig(x) = ghosts("trimR0", x)
+//@ define fracMaxwell(s) = (b2i(nparts(s) == 2) * (decval(sig(fpart(s))) * pow10(8 - len(sig(fpart(s))))))
+//@ define numeralOK(s) = (nparts(s) <= 2 && alldigits(ipart(s)) && (nparts(s) == 2 ==> alldigits(fpart(s)) && len(sig(fpart(s))) <= 8))
+
+//@ func StringToAmount
+//@   props C15 C19
+//@   theory numerals
+// MulInt/AddInt cannot fail after the range checks (integral part <= MaxMass, fraction >= 0): two defensive returns
+//@   dead returns 2
+//@   ensures[C15] err == nil ==> numeralOK(s)
+//@   ensures[C15] err == nil ==> amt(result0) == decval(ipart(s)) * 100000000 + fracMaxwell(s)
+//@   ensures[C15] numeralOK(s) && decval(ipart(s)) * 100000000 + fracMaxwell(s) <= maxAmt() ==> err == nil
+//@   ensures validAmt(result0)
+
+//@ func isDecimalDigits
+//@   props C15 C19
+//@   theory numerals
+//@   ensures result == alldigits(s)
+//@   loop#1 invariant 0 <= i && i <= len(s) && (forall qj_ int :: 0 <= qj_ && qj_ < i ==> sbyteAt(s, qj_) >= 48 && sbyteAt(s, qj_) <= 57)
